@@ -202,7 +202,7 @@ func (e *env) keys(rng *rand.Rand, n int) {
 }
 
 func body(r *ev.Run) {
-	r.Rule("stores = seeded random histories (pairwise distinct merkle roots; forks at many heights, stale siblings at listed heights, orphans, reorganisations); per store: a complete walk for EVERY batch size 1..n+2 (n = longest-chain length), batchSize 0 (must answer 200 or 4xx), every stored merkle root as starting key (longest: the rest of the chain; stale/orphan: 409), unknown keys and near misses of stored roots - upper case, a digit cut or appended, leading zeros cut, 0x-prefixed, byte-reversed - (404), walks with restarts of the service between pages, and walks interleaved with ingestion of 1-3 new tip headers between pages. evaluations = complete walks; distinct = (store index, batch size) walks; non-trivial = store has a stale or orphan header.")
+	r.Rule("stores = seeded random histories (pairwise distinct merkle roots; forks at many heights, stale siblings at listed heights, orphans, reorganisations); plus one chain of 2081 blocks (after a reorganisation over 2050 heights) walked with page sizes 1, 499..501, 1000, 1001, 2000, 2001, n-1..n+1, 5000, 10^6; per store: a complete walk for EVERY batch size 1..n+2 (n = longest-chain length), batchSize 0 (must answer 200 or 4xx), every stored merkle root as starting key (longest: the rest of the chain; stale/orphan: 409), unknown keys and near misses of stored roots - upper case, a digit cut or appended, leading zeros cut, 0x-prefixed, byte-reversed - (404), walks with restarts of the service between pages, and walks interleaved with ingestion of 1-3 new tip headers between pages. evaluations = complete walks; distinct = (store index, batch size) walks; non-trivial = store has a stale or orphan header.")
 	r.Assume("merkle roots pairwise distinct (as the statement requires)", "interleaved ingestion only extends the tip", "SQLite only")
 	r.Require("complete_walks", 300)
 	r.Require("keys_non_longest_409", 20)
@@ -213,6 +213,37 @@ func body(r *ev.Run) {
 		return
 	}
 	defer st.Destroy()
+	// a long chain (2000+ blocks, after a reorganisation over 2050 heights): page sizes around the sizes at which statements
+	// get batched, and far beyond the chain
+	r.Do("long", func() {
+		rng := r.Rand("long")
+		hist := gen.DeepReorg(rng, rig.Genesis(), 30, 2050)
+		if err := st.Reset(); err != nil {
+			r.Violate("harness|reset", err.Error(), "long", nil)
+			return
+		}
+		m := mb.NewModel()
+		for _, h := range hist.Hdrs {
+			si := mb.Step(st, m, h)
+			if si.Res.Panic != nil || si.Res.Code() != mb.WantCode(si.Outcome) {
+				r.Count("stores_skipped_ingest_divergence", 1)
+				return
+			}
+		}
+		e := &env{r: r, st: st, m: m, hist: gen.History{}, caseID: "long"}
+		n := len(m.LongestPath())
+		for _, b := range []int{1, 499, 500, 501, 1000, 1001, 2000, 2001, n - 1, n, n + 1, 5000, 1000000} {
+			if e.failed {
+				return
+			}
+			e.walk(b, "", 0, "long-chain", nil)
+			r.Distinct(fmt.Sprintf("long|%d", b))
+		}
+		if !e.failed {
+			e.keys(rng, 40)
+		}
+		r.Count("long_chains_walked", 1)
+	})
 	nStores := r.Pick(160, 3000)
 	for i := 0; i < nStores; i++ {
 		caseID := fmt.Sprintf("s/%d", i)
